@@ -22,8 +22,8 @@ Local Open Scope Z_scope.
 (* ---------- SDK software timers ---------- *)
 Record timer := mktimer { armed : bool; due : Z; tseq : Z; period : Z }.
 Definition timer0 : timer := mktimer false 0 0 0.
-Inductive tid := T_wifi | T_timer1 | T_iter | T_wd | T_recon | T_stop | T_value | T_gpio2.
-Definition all_tids : list tid := [T_wifi; T_timer1; T_iter; T_wd; T_recon; T_stop; T_value; T_gpio2].
+Inductive tid := T_wifi | T_timer1 | T_iter | T_wd | T_recon | T_stop | T_value | T_gpio2 | T_srv.
+Definition all_tids : list tid := [T_wifi; T_timer1; T_iter; T_wd; T_recon; T_stop; T_value; T_gpio2; T_srv].
 
 (* ---------- one SRPC instance (created by connect_cb, freed by __stop) ---------- *)
 Record rpc := mkrpc {
@@ -44,7 +44,7 @@ Definition G_DISCONNECTED : Z := 1. Definition G_IPRECEIVED : Z := 2. Definition
 (* output kinds *)
 Definition O_WIFISTART : Z := 0. Definition O_CONNECT : Z := 1. Definition O_DISCONNECT : Z := 2. Definition O_FRESH : Z := 3.
 Definition O_WIRE : Z := 4. Definition O_JUNK : Z := 5. Definition O_RESTART : Z := 6. Definition O_STATE : Z := 7. Definition O_FUEL : Z := 8.
-Definition O_RX : Z := 9. Definition O_DISCD : Z := 10.
+Definition O_RX : Z := 9. Definition O_DISCD : Z := 10. Definition O_SRVRX : Z := 11.
 
 Record st := mkst {
   now : Z;
@@ -62,6 +62,7 @@ Record st := mkst {
   t_stop : timer;
   t_value : timer;
   t_gpio2 : timer;
+  t_srv : timer;
   wstatus : Z;
   wlast : Z;
   link : Z;
@@ -88,58 +89,64 @@ Record st := mkst {
   regpay : list Z;
   clrstop : bool;
   clrconn : bool;
-  evi : Z
+  evi : Z;
+  srvdelay : Z;
+  srvq : list Z
 }.
 
-Definition set_now (v : Z) (s : st) : st := mkst v (boot s) (cycles0 s) (lat s) (lati s) (fired s) (seqc s) (t_wifi s) (t_timer1 s) (t_iter s) (t_wd s) (t_recon s) (t_stop s) (t_value s) (t_gpio2 s) (wstatus s) (wlast s) (link s) (liveres s) (deadres s) (script s) (started s) (registered s) (srpc s) (espbuf s) (recvbuf s) (lastresp s) (lastsent s) (nextwd s) (actto s) (resolving s) (gstate s) (conn s) (wbuf s) (stalled s) (outs s) (halted s) (stuck s) (regpay s) (clrstop s) (clrconn s) (evi s).
-Definition set_boot (v : Z) (s : st) : st := mkst (now s) v (cycles0 s) (lat s) (lati s) (fired s) (seqc s) (t_wifi s) (t_timer1 s) (t_iter s) (t_wd s) (t_recon s) (t_stop s) (t_value s) (t_gpio2 s) (wstatus s) (wlast s) (link s) (liveres s) (deadres s) (script s) (started s) (registered s) (srpc s) (espbuf s) (recvbuf s) (lastresp s) (lastsent s) (nextwd s) (actto s) (resolving s) (gstate s) (conn s) (wbuf s) (stalled s) (outs s) (halted s) (stuck s) (regpay s) (clrstop s) (clrconn s) (evi s).
-Definition set_cycles0 (v : Z) (s : st) : st := mkst (now s) (boot s) v (lat s) (lati s) (fired s) (seqc s) (t_wifi s) (t_timer1 s) (t_iter s) (t_wd s) (t_recon s) (t_stop s) (t_value s) (t_gpio2 s) (wstatus s) (wlast s) (link s) (liveres s) (deadres s) (script s) (started s) (registered s) (srpc s) (espbuf s) (recvbuf s) (lastresp s) (lastsent s) (nextwd s) (actto s) (resolving s) (gstate s) (conn s) (wbuf s) (stalled s) (outs s) (halted s) (stuck s) (regpay s) (clrstop s) (clrconn s) (evi s).
-Definition set_lat (v : list Z) (s : st) : st := mkst (now s) (boot s) (cycles0 s) v (lati s) (fired s) (seqc s) (t_wifi s) (t_timer1 s) (t_iter s) (t_wd s) (t_recon s) (t_stop s) (t_value s) (t_gpio2 s) (wstatus s) (wlast s) (link s) (liveres s) (deadres s) (script s) (started s) (registered s) (srpc s) (espbuf s) (recvbuf s) (lastresp s) (lastsent s) (nextwd s) (actto s) (resolving s) (gstate s) (conn s) (wbuf s) (stalled s) (outs s) (halted s) (stuck s) (regpay s) (clrstop s) (clrconn s) (evi s).
-Definition set_lati (v : Z) (s : st) : st := mkst (now s) (boot s) (cycles0 s) (lat s) v (fired s) (seqc s) (t_wifi s) (t_timer1 s) (t_iter s) (t_wd s) (t_recon s) (t_stop s) (t_value s) (t_gpio2 s) (wstatus s) (wlast s) (link s) (liveres s) (deadres s) (script s) (started s) (registered s) (srpc s) (espbuf s) (recvbuf s) (lastresp s) (lastsent s) (nextwd s) (actto s) (resolving s) (gstate s) (conn s) (wbuf s) (stalled s) (outs s) (halted s) (stuck s) (regpay s) (clrstop s) (clrconn s) (evi s).
-Definition set_fired (v : Z) (s : st) : st := mkst (now s) (boot s) (cycles0 s) (lat s) (lati s) v (seqc s) (t_wifi s) (t_timer1 s) (t_iter s) (t_wd s) (t_recon s) (t_stop s) (t_value s) (t_gpio2 s) (wstatus s) (wlast s) (link s) (liveres s) (deadres s) (script s) (started s) (registered s) (srpc s) (espbuf s) (recvbuf s) (lastresp s) (lastsent s) (nextwd s) (actto s) (resolving s) (gstate s) (conn s) (wbuf s) (stalled s) (outs s) (halted s) (stuck s) (regpay s) (clrstop s) (clrconn s) (evi s).
-Definition set_seqc (v : Z) (s : st) : st := mkst (now s) (boot s) (cycles0 s) (lat s) (lati s) (fired s) v (t_wifi s) (t_timer1 s) (t_iter s) (t_wd s) (t_recon s) (t_stop s) (t_value s) (t_gpio2 s) (wstatus s) (wlast s) (link s) (liveres s) (deadres s) (script s) (started s) (registered s) (srpc s) (espbuf s) (recvbuf s) (lastresp s) (lastsent s) (nextwd s) (actto s) (resolving s) (gstate s) (conn s) (wbuf s) (stalled s) (outs s) (halted s) (stuck s) (regpay s) (clrstop s) (clrconn s) (evi s).
-Definition set_t_wifi (v : timer) (s : st) : st := mkst (now s) (boot s) (cycles0 s) (lat s) (lati s) (fired s) (seqc s) v (t_timer1 s) (t_iter s) (t_wd s) (t_recon s) (t_stop s) (t_value s) (t_gpio2 s) (wstatus s) (wlast s) (link s) (liveres s) (deadres s) (script s) (started s) (registered s) (srpc s) (espbuf s) (recvbuf s) (lastresp s) (lastsent s) (nextwd s) (actto s) (resolving s) (gstate s) (conn s) (wbuf s) (stalled s) (outs s) (halted s) (stuck s) (regpay s) (clrstop s) (clrconn s) (evi s).
-Definition set_t_timer1 (v : timer) (s : st) : st := mkst (now s) (boot s) (cycles0 s) (lat s) (lati s) (fired s) (seqc s) (t_wifi s) v (t_iter s) (t_wd s) (t_recon s) (t_stop s) (t_value s) (t_gpio2 s) (wstatus s) (wlast s) (link s) (liveres s) (deadres s) (script s) (started s) (registered s) (srpc s) (espbuf s) (recvbuf s) (lastresp s) (lastsent s) (nextwd s) (actto s) (resolving s) (gstate s) (conn s) (wbuf s) (stalled s) (outs s) (halted s) (stuck s) (regpay s) (clrstop s) (clrconn s) (evi s).
-Definition set_t_iter (v : timer) (s : st) : st := mkst (now s) (boot s) (cycles0 s) (lat s) (lati s) (fired s) (seqc s) (t_wifi s) (t_timer1 s) v (t_wd s) (t_recon s) (t_stop s) (t_value s) (t_gpio2 s) (wstatus s) (wlast s) (link s) (liveres s) (deadres s) (script s) (started s) (registered s) (srpc s) (espbuf s) (recvbuf s) (lastresp s) (lastsent s) (nextwd s) (actto s) (resolving s) (gstate s) (conn s) (wbuf s) (stalled s) (outs s) (halted s) (stuck s) (regpay s) (clrstop s) (clrconn s) (evi s).
-Definition set_t_wd (v : timer) (s : st) : st := mkst (now s) (boot s) (cycles0 s) (lat s) (lati s) (fired s) (seqc s) (t_wifi s) (t_timer1 s) (t_iter s) v (t_recon s) (t_stop s) (t_value s) (t_gpio2 s) (wstatus s) (wlast s) (link s) (liveres s) (deadres s) (script s) (started s) (registered s) (srpc s) (espbuf s) (recvbuf s) (lastresp s) (lastsent s) (nextwd s) (actto s) (resolving s) (gstate s) (conn s) (wbuf s) (stalled s) (outs s) (halted s) (stuck s) (regpay s) (clrstop s) (clrconn s) (evi s).
-Definition set_t_recon (v : timer) (s : st) : st := mkst (now s) (boot s) (cycles0 s) (lat s) (lati s) (fired s) (seqc s) (t_wifi s) (t_timer1 s) (t_iter s) (t_wd s) v (t_stop s) (t_value s) (t_gpio2 s) (wstatus s) (wlast s) (link s) (liveres s) (deadres s) (script s) (started s) (registered s) (srpc s) (espbuf s) (recvbuf s) (lastresp s) (lastsent s) (nextwd s) (actto s) (resolving s) (gstate s) (conn s) (wbuf s) (stalled s) (outs s) (halted s) (stuck s) (regpay s) (clrstop s) (clrconn s) (evi s).
-Definition set_t_stop (v : timer) (s : st) : st := mkst (now s) (boot s) (cycles0 s) (lat s) (lati s) (fired s) (seqc s) (t_wifi s) (t_timer1 s) (t_iter s) (t_wd s) (t_recon s) v (t_value s) (t_gpio2 s) (wstatus s) (wlast s) (link s) (liveres s) (deadres s) (script s) (started s) (registered s) (srpc s) (espbuf s) (recvbuf s) (lastresp s) (lastsent s) (nextwd s) (actto s) (resolving s) (gstate s) (conn s) (wbuf s) (stalled s) (outs s) (halted s) (stuck s) (regpay s) (clrstop s) (clrconn s) (evi s).
-Definition set_t_value (v : timer) (s : st) : st := mkst (now s) (boot s) (cycles0 s) (lat s) (lati s) (fired s) (seqc s) (t_wifi s) (t_timer1 s) (t_iter s) (t_wd s) (t_recon s) (t_stop s) v (t_gpio2 s) (wstatus s) (wlast s) (link s) (liveres s) (deadres s) (script s) (started s) (registered s) (srpc s) (espbuf s) (recvbuf s) (lastresp s) (lastsent s) (nextwd s) (actto s) (resolving s) (gstate s) (conn s) (wbuf s) (stalled s) (outs s) (halted s) (stuck s) (regpay s) (clrstop s) (clrconn s) (evi s).
-Definition set_t_gpio2 (v : timer) (s : st) : st := mkst (now s) (boot s) (cycles0 s) (lat s) (lati s) (fired s) (seqc s) (t_wifi s) (t_timer1 s) (t_iter s) (t_wd s) (t_recon s) (t_stop s) (t_value s) v (wstatus s) (wlast s) (link s) (liveres s) (deadres s) (script s) (started s) (registered s) (srpc s) (espbuf s) (recvbuf s) (lastresp s) (lastsent s) (nextwd s) (actto s) (resolving s) (gstate s) (conn s) (wbuf s) (stalled s) (outs s) (halted s) (stuck s) (regpay s) (clrstop s) (clrconn s) (evi s).
-Definition set_wstatus (v : Z) (s : st) : st := mkst (now s) (boot s) (cycles0 s) (lat s) (lati s) (fired s) (seqc s) (t_wifi s) (t_timer1 s) (t_iter s) (t_wd s) (t_recon s) (t_stop s) (t_value s) (t_gpio2 s) v (wlast s) (link s) (liveres s) (deadres s) (script s) (started s) (registered s) (srpc s) (espbuf s) (recvbuf s) (lastresp s) (lastsent s) (nextwd s) (actto s) (resolving s) (gstate s) (conn s) (wbuf s) (stalled s) (outs s) (halted s) (stuck s) (regpay s) (clrstop s) (clrconn s) (evi s).
-Definition set_wlast (v : Z) (s : st) : st := mkst (now s) (boot s) (cycles0 s) (lat s) (lati s) (fired s) (seqc s) (t_wifi s) (t_timer1 s) (t_iter s) (t_wd s) (t_recon s) (t_stop s) (t_value s) (t_gpio2 s) (wstatus s) v (link s) (liveres s) (deadres s) (script s) (started s) (registered s) (srpc s) (espbuf s) (recvbuf s) (lastresp s) (lastsent s) (nextwd s) (actto s) (resolving s) (gstate s) (conn s) (wbuf s) (stalled s) (outs s) (halted s) (stuck s) (regpay s) (clrstop s) (clrconn s) (evi s).
-Definition set_link (v : Z) (s : st) : st := mkst (now s) (boot s) (cycles0 s) (lat s) (lati s) (fired s) (seqc s) (t_wifi s) (t_timer1 s) (t_iter s) (t_wd s) (t_recon s) (t_stop s) (t_value s) (t_gpio2 s) (wstatus s) (wlast s) v (liveres s) (deadres s) (script s) (started s) (registered s) (srpc s) (espbuf s) (recvbuf s) (lastresp s) (lastsent s) (nextwd s) (actto s) (resolving s) (gstate s) (conn s) (wbuf s) (stalled s) (outs s) (halted s) (stuck s) (regpay s) (clrstop s) (clrconn s) (evi s).
-Definition set_liveres (v : Z) (s : st) : st := mkst (now s) (boot s) (cycles0 s) (lat s) (lati s) (fired s) (seqc s) (t_wifi s) (t_timer1 s) (t_iter s) (t_wd s) (t_recon s) (t_stop s) (t_value s) (t_gpio2 s) (wstatus s) (wlast s) (link s) v (deadres s) (script s) (started s) (registered s) (srpc s) (espbuf s) (recvbuf s) (lastresp s) (lastsent s) (nextwd s) (actto s) (resolving s) (gstate s) (conn s) (wbuf s) (stalled s) (outs s) (halted s) (stuck s) (regpay s) (clrstop s) (clrconn s) (evi s).
-Definition set_deadres (v : Z) (s : st) : st := mkst (now s) (boot s) (cycles0 s) (lat s) (lati s) (fired s) (seqc s) (t_wifi s) (t_timer1 s) (t_iter s) (t_wd s) (t_recon s) (t_stop s) (t_value s) (t_gpio2 s) (wstatus s) (wlast s) (link s) (liveres s) v (script s) (started s) (registered s) (srpc s) (espbuf s) (recvbuf s) (lastresp s) (lastsent s) (nextwd s) (actto s) (resolving s) (gstate s) (conn s) (wbuf s) (stalled s) (outs s) (halted s) (stuck s) (regpay s) (clrstop s) (clrconn s) (evi s).
-Definition set_script (v : list Z) (s : st) : st := mkst (now s) (boot s) (cycles0 s) (lat s) (lati s) (fired s) (seqc s) (t_wifi s) (t_timer1 s) (t_iter s) (t_wd s) (t_recon s) (t_stop s) (t_value s) (t_gpio2 s) (wstatus s) (wlast s) (link s) (liveres s) (deadres s) v (started s) (registered s) (srpc s) (espbuf s) (recvbuf s) (lastresp s) (lastsent s) (nextwd s) (actto s) (resolving s) (gstate s) (conn s) (wbuf s) (stalled s) (outs s) (halted s) (stuck s) (regpay s) (clrstop s) (clrconn s) (evi s).
-Definition set_started (v : bool) (s : st) : st := mkst (now s) (boot s) (cycles0 s) (lat s) (lati s) (fired s) (seqc s) (t_wifi s) (t_timer1 s) (t_iter s) (t_wd s) (t_recon s) (t_stop s) (t_value s) (t_gpio2 s) (wstatus s) (wlast s) (link s) (liveres s) (deadres s) (script s) v (registered s) (srpc s) (espbuf s) (recvbuf s) (lastresp s) (lastsent s) (nextwd s) (actto s) (resolving s) (gstate s) (conn s) (wbuf s) (stalled s) (outs s) (halted s) (stuck s) (regpay s) (clrstop s) (clrconn s) (evi s).
-Definition set_registered (v : Z) (s : st) : st := mkst (now s) (boot s) (cycles0 s) (lat s) (lati s) (fired s) (seqc s) (t_wifi s) (t_timer1 s) (t_iter s) (t_wd s) (t_recon s) (t_stop s) (t_value s) (t_gpio2 s) (wstatus s) (wlast s) (link s) (liveres s) (deadres s) (script s) (started s) v (srpc s) (espbuf s) (recvbuf s) (lastresp s) (lastsent s) (nextwd s) (actto s) (resolving s) (gstate s) (conn s) (wbuf s) (stalled s) (outs s) (halted s) (stuck s) (regpay s) (clrstop s) (clrconn s) (evi s).
-Definition set_srpc (v : option rpc) (s : st) : st := mkst (now s) (boot s) (cycles0 s) (lat s) (lati s) (fired s) (seqc s) (t_wifi s) (t_timer1 s) (t_iter s) (t_wd s) (t_recon s) (t_stop s) (t_value s) (t_gpio2 s) (wstatus s) (wlast s) (link s) (liveres s) (deadres s) (script s) (started s) (registered s) v (espbuf s) (recvbuf s) (lastresp s) (lastsent s) (nextwd s) (actto s) (resolving s) (gstate s) (conn s) (wbuf s) (stalled s) (outs s) (halted s) (stuck s) (regpay s) (clrstop s) (clrconn s) (evi s).
-Definition set_espbuf (v : list Z) (s : st) : st := mkst (now s) (boot s) (cycles0 s) (lat s) (lati s) (fired s) (seqc s) (t_wifi s) (t_timer1 s) (t_iter s) (t_wd s) (t_recon s) (t_stop s) (t_value s) (t_gpio2 s) (wstatus s) (wlast s) (link s) (liveres s) (deadres s) (script s) (started s) (registered s) (srpc s) v (recvbuf s) (lastresp s) (lastsent s) (nextwd s) (actto s) (resolving s) (gstate s) (conn s) (wbuf s) (stalled s) (outs s) (halted s) (stuck s) (regpay s) (clrstop s) (clrconn s) (evi s).
-Definition set_recvbuf (v : list Z) (s : st) : st := mkst (now s) (boot s) (cycles0 s) (lat s) (lati s) (fired s) (seqc s) (t_wifi s) (t_timer1 s) (t_iter s) (t_wd s) (t_recon s) (t_stop s) (t_value s) (t_gpio2 s) (wstatus s) (wlast s) (link s) (liveres s) (deadres s) (script s) (started s) (registered s) (srpc s) (espbuf s) v (lastresp s) (lastsent s) (nextwd s) (actto s) (resolving s) (gstate s) (conn s) (wbuf s) (stalled s) (outs s) (halted s) (stuck s) (regpay s) (clrstop s) (clrconn s) (evi s).
-Definition set_lastresp (v : Z) (s : st) : st := mkst (now s) (boot s) (cycles0 s) (lat s) (lati s) (fired s) (seqc s) (t_wifi s) (t_timer1 s) (t_iter s) (t_wd s) (t_recon s) (t_stop s) (t_value s) (t_gpio2 s) (wstatus s) (wlast s) (link s) (liveres s) (deadres s) (script s) (started s) (registered s) (srpc s) (espbuf s) (recvbuf s) v (lastsent s) (nextwd s) (actto s) (resolving s) (gstate s) (conn s) (wbuf s) (stalled s) (outs s) (halted s) (stuck s) (regpay s) (clrstop s) (clrconn s) (evi s).
-Definition set_lastsent (v : Z) (s : st) : st := mkst (now s) (boot s) (cycles0 s) (lat s) (lati s) (fired s) (seqc s) (t_wifi s) (t_timer1 s) (t_iter s) (t_wd s) (t_recon s) (t_stop s) (t_value s) (t_gpio2 s) (wstatus s) (wlast s) (link s) (liveres s) (deadres s) (script s) (started s) (registered s) (srpc s) (espbuf s) (recvbuf s) (lastresp s) v (nextwd s) (actto s) (resolving s) (gstate s) (conn s) (wbuf s) (stalled s) (outs s) (halted s) (stuck s) (regpay s) (clrstop s) (clrconn s) (evi s).
-Definition set_nextwd (v : Z) (s : st) : st := mkst (now s) (boot s) (cycles0 s) (lat s) (lati s) (fired s) (seqc s) (t_wifi s) (t_timer1 s) (t_iter s) (t_wd s) (t_recon s) (t_stop s) (t_value s) (t_gpio2 s) (wstatus s) (wlast s) (link s) (liveres s) (deadres s) (script s) (started s) (registered s) (srpc s) (espbuf s) (recvbuf s) (lastresp s) (lastsent s) v (actto s) (resolving s) (gstate s) (conn s) (wbuf s) (stalled s) (outs s) (halted s) (stuck s) (regpay s) (clrstop s) (clrconn s) (evi s).
-Definition set_actto (v : Z) (s : st) : st := mkst (now s) (boot s) (cycles0 s) (lat s) (lati s) (fired s) (seqc s) (t_wifi s) (t_timer1 s) (t_iter s) (t_wd s) (t_recon s) (t_stop s) (t_value s) (t_gpio2 s) (wstatus s) (wlast s) (link s) (liveres s) (deadres s) (script s) (started s) (registered s) (srpc s) (espbuf s) (recvbuf s) (lastresp s) (lastsent s) (nextwd s) v (resolving s) (gstate s) (conn s) (wbuf s) (stalled s) (outs s) (halted s) (stuck s) (regpay s) (clrstop s) (clrconn s) (evi s).
-Definition set_resolving (v : bool) (s : st) : st := mkst (now s) (boot s) (cycles0 s) (lat s) (lati s) (fired s) (seqc s) (t_wifi s) (t_timer1 s) (t_iter s) (t_wd s) (t_recon s) (t_stop s) (t_value s) (t_gpio2 s) (wstatus s) (wlast s) (link s) (liveres s) (deadres s) (script s) (started s) (registered s) (srpc s) (espbuf s) (recvbuf s) (lastresp s) (lastsent s) (nextwd s) (actto s) v (gstate s) (conn s) (wbuf s) (stalled s) (outs s) (halted s) (stuck s) (regpay s) (clrstop s) (clrconn s) (evi s).
-Definition set_gstate (v : Z) (s : st) : st := mkst (now s) (boot s) (cycles0 s) (lat s) (lati s) (fired s) (seqc s) (t_wifi s) (t_timer1 s) (t_iter s) (t_wd s) (t_recon s) (t_stop s) (t_value s) (t_gpio2 s) (wstatus s) (wlast s) (link s) (liveres s) (deadres s) (script s) (started s) (registered s) (srpc s) (espbuf s) (recvbuf s) (lastresp s) (lastsent s) (nextwd s) (actto s) (resolving s) v (conn s) (wbuf s) (stalled s) (outs s) (halted s) (stuck s) (regpay s) (clrstop s) (clrconn s) (evi s).
-Definition set_conn (v : Z) (s : st) : st := mkst (now s) (boot s) (cycles0 s) (lat s) (lati s) (fired s) (seqc s) (t_wifi s) (t_timer1 s) (t_iter s) (t_wd s) (t_recon s) (t_stop s) (t_value s) (t_gpio2 s) (wstatus s) (wlast s) (link s) (liveres s) (deadres s) (script s) (started s) (registered s) (srpc s) (espbuf s) (recvbuf s) (lastresp s) (lastsent s) (nextwd s) (actto s) (resolving s) (gstate s) v (wbuf s) (stalled s) (outs s) (halted s) (stuck s) (regpay s) (clrstop s) (clrconn s) (evi s).
-Definition set_wbuf (v : list Z) (s : st) : st := mkst (now s) (boot s) (cycles0 s) (lat s) (lati s) (fired s) (seqc s) (t_wifi s) (t_timer1 s) (t_iter s) (t_wd s) (t_recon s) (t_stop s) (t_value s) (t_gpio2 s) (wstatus s) (wlast s) (link s) (liveres s) (deadres s) (script s) (started s) (registered s) (srpc s) (espbuf s) (recvbuf s) (lastresp s) (lastsent s) (nextwd s) (actto s) (resolving s) (gstate s) (conn s) v (stalled s) (outs s) (halted s) (stuck s) (regpay s) (clrstop s) (clrconn s) (evi s).
-Definition set_stalled (v : bool) (s : st) : st := mkst (now s) (boot s) (cycles0 s) (lat s) (lati s) (fired s) (seqc s) (t_wifi s) (t_timer1 s) (t_iter s) (t_wd s) (t_recon s) (t_stop s) (t_value s) (t_gpio2 s) (wstatus s) (wlast s) (link s) (liveres s) (deadres s) (script s) (started s) (registered s) (srpc s) (espbuf s) (recvbuf s) (lastresp s) (lastsent s) (nextwd s) (actto s) (resolving s) (gstate s) (conn s) (wbuf s) v (outs s) (halted s) (stuck s) (regpay s) (clrstop s) (clrconn s) (evi s).
-Definition set_outs (v : list wire) (s : st) : st := mkst (now s) (boot s) (cycles0 s) (lat s) (lati s) (fired s) (seqc s) (t_wifi s) (t_timer1 s) (t_iter s) (t_wd s) (t_recon s) (t_stop s) (t_value s) (t_gpio2 s) (wstatus s) (wlast s) (link s) (liveres s) (deadres s) (script s) (started s) (registered s) (srpc s) (espbuf s) (recvbuf s) (lastresp s) (lastsent s) (nextwd s) (actto s) (resolving s) (gstate s) (conn s) (wbuf s) (stalled s) v (halted s) (stuck s) (regpay s) (clrstop s) (clrconn s) (evi s).
-Definition set_halted (v : bool) (s : st) : st := mkst (now s) (boot s) (cycles0 s) (lat s) (lati s) (fired s) (seqc s) (t_wifi s) (t_timer1 s) (t_iter s) (t_wd s) (t_recon s) (t_stop s) (t_value s) (t_gpio2 s) (wstatus s) (wlast s) (link s) (liveres s) (deadres s) (script s) (started s) (registered s) (srpc s) (espbuf s) (recvbuf s) (lastresp s) (lastsent s) (nextwd s) (actto s) (resolving s) (gstate s) (conn s) (wbuf s) (stalled s) (outs s) v (stuck s) (regpay s) (clrstop s) (clrconn s) (evi s).
-Definition set_stuck (v : bool) (s : st) : st := mkst (now s) (boot s) (cycles0 s) (lat s) (lati s) (fired s) (seqc s) (t_wifi s) (t_timer1 s) (t_iter s) (t_wd s) (t_recon s) (t_stop s) (t_value s) (t_gpio2 s) (wstatus s) (wlast s) (link s) (liveres s) (deadres s) (script s) (started s) (registered s) (srpc s) (espbuf s) (recvbuf s) (lastresp s) (lastsent s) (nextwd s) (actto s) (resolving s) (gstate s) (conn s) (wbuf s) (stalled s) (outs s) (halted s) v (regpay s) (clrstop s) (clrconn s) (evi s).
-Definition set_regpay (v : list Z) (s : st) : st := mkst (now s) (boot s) (cycles0 s) (lat s) (lati s) (fired s) (seqc s) (t_wifi s) (t_timer1 s) (t_iter s) (t_wd s) (t_recon s) (t_stop s) (t_value s) (t_gpio2 s) (wstatus s) (wlast s) (link s) (liveres s) (deadres s) (script s) (started s) (registered s) (srpc s) (espbuf s) (recvbuf s) (lastresp s) (lastsent s) (nextwd s) (actto s) (resolving s) (gstate s) (conn s) (wbuf s) (stalled s) (outs s) (halted s) (stuck s) v (clrstop s) (clrconn s) (evi s).
-Definition set_clrstop (v : bool) (s : st) : st := mkst (now s) (boot s) (cycles0 s) (lat s) (lati s) (fired s) (seqc s) (t_wifi s) (t_timer1 s) (t_iter s) (t_wd s) (t_recon s) (t_stop s) (t_value s) (t_gpio2 s) (wstatus s) (wlast s) (link s) (liveres s) (deadres s) (script s) (started s) (registered s) (srpc s) (espbuf s) (recvbuf s) (lastresp s) (lastsent s) (nextwd s) (actto s) (resolving s) (gstate s) (conn s) (wbuf s) (stalled s) (outs s) (halted s) (stuck s) (regpay s) v (clrconn s) (evi s).
-Definition set_clrconn (v : bool) (s : st) : st := mkst (now s) (boot s) (cycles0 s) (lat s) (lati s) (fired s) (seqc s) (t_wifi s) (t_timer1 s) (t_iter s) (t_wd s) (t_recon s) (t_stop s) (t_value s) (t_gpio2 s) (wstatus s) (wlast s) (link s) (liveres s) (deadres s) (script s) (started s) (registered s) (srpc s) (espbuf s) (recvbuf s) (lastresp s) (lastsent s) (nextwd s) (actto s) (resolving s) (gstate s) (conn s) (wbuf s) (stalled s) (outs s) (halted s) (stuck s) (regpay s) (clrstop s) v (evi s).
-Definition set_evi (v : Z) (s : st) : st := mkst (now s) (boot s) (cycles0 s) (lat s) (lati s) (fired s) (seqc s) (t_wifi s) (t_timer1 s) (t_iter s) (t_wd s) (t_recon s) (t_stop s) (t_value s) (t_gpio2 s) (wstatus s) (wlast s) (link s) (liveres s) (deadres s) (script s) (started s) (registered s) (srpc s) (espbuf s) (recvbuf s) (lastresp s) (lastsent s) (nextwd s) (actto s) (resolving s) (gstate s) (conn s) (wbuf s) (stalled s) (outs s) (halted s) (stuck s) (regpay s) (clrstop s) (clrconn s) v.
+Definition set_now (v : Z) (s : st) : st := mkst v (boot s) (cycles0 s) (lat s) (lati s) (fired s) (seqc s) (t_wifi s) (t_timer1 s) (t_iter s) (t_wd s) (t_recon s) (t_stop s) (t_value s) (t_gpio2 s) (t_srv s) (wstatus s) (wlast s) (link s) (liveres s) (deadres s) (script s) (started s) (registered s) (srpc s) (espbuf s) (recvbuf s) (lastresp s) (lastsent s) (nextwd s) (actto s) (resolving s) (gstate s) (conn s) (wbuf s) (stalled s) (outs s) (halted s) (stuck s) (regpay s) (clrstop s) (clrconn s) (evi s) (srvdelay s) (srvq s).
+Definition set_boot (v : Z) (s : st) : st := mkst (now s) v (cycles0 s) (lat s) (lati s) (fired s) (seqc s) (t_wifi s) (t_timer1 s) (t_iter s) (t_wd s) (t_recon s) (t_stop s) (t_value s) (t_gpio2 s) (t_srv s) (wstatus s) (wlast s) (link s) (liveres s) (deadres s) (script s) (started s) (registered s) (srpc s) (espbuf s) (recvbuf s) (lastresp s) (lastsent s) (nextwd s) (actto s) (resolving s) (gstate s) (conn s) (wbuf s) (stalled s) (outs s) (halted s) (stuck s) (regpay s) (clrstop s) (clrconn s) (evi s) (srvdelay s) (srvq s).
+Definition set_cycles0 (v : Z) (s : st) : st := mkst (now s) (boot s) v (lat s) (lati s) (fired s) (seqc s) (t_wifi s) (t_timer1 s) (t_iter s) (t_wd s) (t_recon s) (t_stop s) (t_value s) (t_gpio2 s) (t_srv s) (wstatus s) (wlast s) (link s) (liveres s) (deadres s) (script s) (started s) (registered s) (srpc s) (espbuf s) (recvbuf s) (lastresp s) (lastsent s) (nextwd s) (actto s) (resolving s) (gstate s) (conn s) (wbuf s) (stalled s) (outs s) (halted s) (stuck s) (regpay s) (clrstop s) (clrconn s) (evi s) (srvdelay s) (srvq s).
+Definition set_lat (v : list Z) (s : st) : st := mkst (now s) (boot s) (cycles0 s) v (lati s) (fired s) (seqc s) (t_wifi s) (t_timer1 s) (t_iter s) (t_wd s) (t_recon s) (t_stop s) (t_value s) (t_gpio2 s) (t_srv s) (wstatus s) (wlast s) (link s) (liveres s) (deadres s) (script s) (started s) (registered s) (srpc s) (espbuf s) (recvbuf s) (lastresp s) (lastsent s) (nextwd s) (actto s) (resolving s) (gstate s) (conn s) (wbuf s) (stalled s) (outs s) (halted s) (stuck s) (regpay s) (clrstop s) (clrconn s) (evi s) (srvdelay s) (srvq s).
+Definition set_lati (v : Z) (s : st) : st := mkst (now s) (boot s) (cycles0 s) (lat s) v (fired s) (seqc s) (t_wifi s) (t_timer1 s) (t_iter s) (t_wd s) (t_recon s) (t_stop s) (t_value s) (t_gpio2 s) (t_srv s) (wstatus s) (wlast s) (link s) (liveres s) (deadres s) (script s) (started s) (registered s) (srpc s) (espbuf s) (recvbuf s) (lastresp s) (lastsent s) (nextwd s) (actto s) (resolving s) (gstate s) (conn s) (wbuf s) (stalled s) (outs s) (halted s) (stuck s) (regpay s) (clrstop s) (clrconn s) (evi s) (srvdelay s) (srvq s).
+Definition set_fired (v : Z) (s : st) : st := mkst (now s) (boot s) (cycles0 s) (lat s) (lati s) v (seqc s) (t_wifi s) (t_timer1 s) (t_iter s) (t_wd s) (t_recon s) (t_stop s) (t_value s) (t_gpio2 s) (t_srv s) (wstatus s) (wlast s) (link s) (liveres s) (deadres s) (script s) (started s) (registered s) (srpc s) (espbuf s) (recvbuf s) (lastresp s) (lastsent s) (nextwd s) (actto s) (resolving s) (gstate s) (conn s) (wbuf s) (stalled s) (outs s) (halted s) (stuck s) (regpay s) (clrstop s) (clrconn s) (evi s) (srvdelay s) (srvq s).
+Definition set_seqc (v : Z) (s : st) : st := mkst (now s) (boot s) (cycles0 s) (lat s) (lati s) (fired s) v (t_wifi s) (t_timer1 s) (t_iter s) (t_wd s) (t_recon s) (t_stop s) (t_value s) (t_gpio2 s) (t_srv s) (wstatus s) (wlast s) (link s) (liveres s) (deadres s) (script s) (started s) (registered s) (srpc s) (espbuf s) (recvbuf s) (lastresp s) (lastsent s) (nextwd s) (actto s) (resolving s) (gstate s) (conn s) (wbuf s) (stalled s) (outs s) (halted s) (stuck s) (regpay s) (clrstop s) (clrconn s) (evi s) (srvdelay s) (srvq s).
+Definition set_t_wifi (v : timer) (s : st) : st := mkst (now s) (boot s) (cycles0 s) (lat s) (lati s) (fired s) (seqc s) v (t_timer1 s) (t_iter s) (t_wd s) (t_recon s) (t_stop s) (t_value s) (t_gpio2 s) (t_srv s) (wstatus s) (wlast s) (link s) (liveres s) (deadres s) (script s) (started s) (registered s) (srpc s) (espbuf s) (recvbuf s) (lastresp s) (lastsent s) (nextwd s) (actto s) (resolving s) (gstate s) (conn s) (wbuf s) (stalled s) (outs s) (halted s) (stuck s) (regpay s) (clrstop s) (clrconn s) (evi s) (srvdelay s) (srvq s).
+Definition set_t_timer1 (v : timer) (s : st) : st := mkst (now s) (boot s) (cycles0 s) (lat s) (lati s) (fired s) (seqc s) (t_wifi s) v (t_iter s) (t_wd s) (t_recon s) (t_stop s) (t_value s) (t_gpio2 s) (t_srv s) (wstatus s) (wlast s) (link s) (liveres s) (deadres s) (script s) (started s) (registered s) (srpc s) (espbuf s) (recvbuf s) (lastresp s) (lastsent s) (nextwd s) (actto s) (resolving s) (gstate s) (conn s) (wbuf s) (stalled s) (outs s) (halted s) (stuck s) (regpay s) (clrstop s) (clrconn s) (evi s) (srvdelay s) (srvq s).
+Definition set_t_iter (v : timer) (s : st) : st := mkst (now s) (boot s) (cycles0 s) (lat s) (lati s) (fired s) (seqc s) (t_wifi s) (t_timer1 s) v (t_wd s) (t_recon s) (t_stop s) (t_value s) (t_gpio2 s) (t_srv s) (wstatus s) (wlast s) (link s) (liveres s) (deadres s) (script s) (started s) (registered s) (srpc s) (espbuf s) (recvbuf s) (lastresp s) (lastsent s) (nextwd s) (actto s) (resolving s) (gstate s) (conn s) (wbuf s) (stalled s) (outs s) (halted s) (stuck s) (regpay s) (clrstop s) (clrconn s) (evi s) (srvdelay s) (srvq s).
+Definition set_t_wd (v : timer) (s : st) : st := mkst (now s) (boot s) (cycles0 s) (lat s) (lati s) (fired s) (seqc s) (t_wifi s) (t_timer1 s) (t_iter s) v (t_recon s) (t_stop s) (t_value s) (t_gpio2 s) (t_srv s) (wstatus s) (wlast s) (link s) (liveres s) (deadres s) (script s) (started s) (registered s) (srpc s) (espbuf s) (recvbuf s) (lastresp s) (lastsent s) (nextwd s) (actto s) (resolving s) (gstate s) (conn s) (wbuf s) (stalled s) (outs s) (halted s) (stuck s) (regpay s) (clrstop s) (clrconn s) (evi s) (srvdelay s) (srvq s).
+Definition set_t_recon (v : timer) (s : st) : st := mkst (now s) (boot s) (cycles0 s) (lat s) (lati s) (fired s) (seqc s) (t_wifi s) (t_timer1 s) (t_iter s) (t_wd s) v (t_stop s) (t_value s) (t_gpio2 s) (t_srv s) (wstatus s) (wlast s) (link s) (liveres s) (deadres s) (script s) (started s) (registered s) (srpc s) (espbuf s) (recvbuf s) (lastresp s) (lastsent s) (nextwd s) (actto s) (resolving s) (gstate s) (conn s) (wbuf s) (stalled s) (outs s) (halted s) (stuck s) (regpay s) (clrstop s) (clrconn s) (evi s) (srvdelay s) (srvq s).
+Definition set_t_stop (v : timer) (s : st) : st := mkst (now s) (boot s) (cycles0 s) (lat s) (lati s) (fired s) (seqc s) (t_wifi s) (t_timer1 s) (t_iter s) (t_wd s) (t_recon s) v (t_value s) (t_gpio2 s) (t_srv s) (wstatus s) (wlast s) (link s) (liveres s) (deadres s) (script s) (started s) (registered s) (srpc s) (espbuf s) (recvbuf s) (lastresp s) (lastsent s) (nextwd s) (actto s) (resolving s) (gstate s) (conn s) (wbuf s) (stalled s) (outs s) (halted s) (stuck s) (regpay s) (clrstop s) (clrconn s) (evi s) (srvdelay s) (srvq s).
+Definition set_t_value (v : timer) (s : st) : st := mkst (now s) (boot s) (cycles0 s) (lat s) (lati s) (fired s) (seqc s) (t_wifi s) (t_timer1 s) (t_iter s) (t_wd s) (t_recon s) (t_stop s) v (t_gpio2 s) (t_srv s) (wstatus s) (wlast s) (link s) (liveres s) (deadres s) (script s) (started s) (registered s) (srpc s) (espbuf s) (recvbuf s) (lastresp s) (lastsent s) (nextwd s) (actto s) (resolving s) (gstate s) (conn s) (wbuf s) (stalled s) (outs s) (halted s) (stuck s) (regpay s) (clrstop s) (clrconn s) (evi s) (srvdelay s) (srvq s).
+Definition set_t_gpio2 (v : timer) (s : st) : st := mkst (now s) (boot s) (cycles0 s) (lat s) (lati s) (fired s) (seqc s) (t_wifi s) (t_timer1 s) (t_iter s) (t_wd s) (t_recon s) (t_stop s) (t_value s) v (t_srv s) (wstatus s) (wlast s) (link s) (liveres s) (deadres s) (script s) (started s) (registered s) (srpc s) (espbuf s) (recvbuf s) (lastresp s) (lastsent s) (nextwd s) (actto s) (resolving s) (gstate s) (conn s) (wbuf s) (stalled s) (outs s) (halted s) (stuck s) (regpay s) (clrstop s) (clrconn s) (evi s) (srvdelay s) (srvq s).
+Definition set_t_srv (v : timer) (s : st) : st := mkst (now s) (boot s) (cycles0 s) (lat s) (lati s) (fired s) (seqc s) (t_wifi s) (t_timer1 s) (t_iter s) (t_wd s) (t_recon s) (t_stop s) (t_value s) (t_gpio2 s) v (wstatus s) (wlast s) (link s) (liveres s) (deadres s) (script s) (started s) (registered s) (srpc s) (espbuf s) (recvbuf s) (lastresp s) (lastsent s) (nextwd s) (actto s) (resolving s) (gstate s) (conn s) (wbuf s) (stalled s) (outs s) (halted s) (stuck s) (regpay s) (clrstop s) (clrconn s) (evi s) (srvdelay s) (srvq s).
+Definition set_wstatus (v : Z) (s : st) : st := mkst (now s) (boot s) (cycles0 s) (lat s) (lati s) (fired s) (seqc s) (t_wifi s) (t_timer1 s) (t_iter s) (t_wd s) (t_recon s) (t_stop s) (t_value s) (t_gpio2 s) (t_srv s) v (wlast s) (link s) (liveres s) (deadres s) (script s) (started s) (registered s) (srpc s) (espbuf s) (recvbuf s) (lastresp s) (lastsent s) (nextwd s) (actto s) (resolving s) (gstate s) (conn s) (wbuf s) (stalled s) (outs s) (halted s) (stuck s) (regpay s) (clrstop s) (clrconn s) (evi s) (srvdelay s) (srvq s).
+Definition set_wlast (v : Z) (s : st) : st := mkst (now s) (boot s) (cycles0 s) (lat s) (lati s) (fired s) (seqc s) (t_wifi s) (t_timer1 s) (t_iter s) (t_wd s) (t_recon s) (t_stop s) (t_value s) (t_gpio2 s) (t_srv s) (wstatus s) v (link s) (liveres s) (deadres s) (script s) (started s) (registered s) (srpc s) (espbuf s) (recvbuf s) (lastresp s) (lastsent s) (nextwd s) (actto s) (resolving s) (gstate s) (conn s) (wbuf s) (stalled s) (outs s) (halted s) (stuck s) (regpay s) (clrstop s) (clrconn s) (evi s) (srvdelay s) (srvq s).
+Definition set_link (v : Z) (s : st) : st := mkst (now s) (boot s) (cycles0 s) (lat s) (lati s) (fired s) (seqc s) (t_wifi s) (t_timer1 s) (t_iter s) (t_wd s) (t_recon s) (t_stop s) (t_value s) (t_gpio2 s) (t_srv s) (wstatus s) (wlast s) v (liveres s) (deadres s) (script s) (started s) (registered s) (srpc s) (espbuf s) (recvbuf s) (lastresp s) (lastsent s) (nextwd s) (actto s) (resolving s) (gstate s) (conn s) (wbuf s) (stalled s) (outs s) (halted s) (stuck s) (regpay s) (clrstop s) (clrconn s) (evi s) (srvdelay s) (srvq s).
+Definition set_liveres (v : Z) (s : st) : st := mkst (now s) (boot s) (cycles0 s) (lat s) (lati s) (fired s) (seqc s) (t_wifi s) (t_timer1 s) (t_iter s) (t_wd s) (t_recon s) (t_stop s) (t_value s) (t_gpio2 s) (t_srv s) (wstatus s) (wlast s) (link s) v (deadres s) (script s) (started s) (registered s) (srpc s) (espbuf s) (recvbuf s) (lastresp s) (lastsent s) (nextwd s) (actto s) (resolving s) (gstate s) (conn s) (wbuf s) (stalled s) (outs s) (halted s) (stuck s) (regpay s) (clrstop s) (clrconn s) (evi s) (srvdelay s) (srvq s).
+Definition set_deadres (v : Z) (s : st) : st := mkst (now s) (boot s) (cycles0 s) (lat s) (lati s) (fired s) (seqc s) (t_wifi s) (t_timer1 s) (t_iter s) (t_wd s) (t_recon s) (t_stop s) (t_value s) (t_gpio2 s) (t_srv s) (wstatus s) (wlast s) (link s) (liveres s) v (script s) (started s) (registered s) (srpc s) (espbuf s) (recvbuf s) (lastresp s) (lastsent s) (nextwd s) (actto s) (resolving s) (gstate s) (conn s) (wbuf s) (stalled s) (outs s) (halted s) (stuck s) (regpay s) (clrstop s) (clrconn s) (evi s) (srvdelay s) (srvq s).
+Definition set_script (v : list Z) (s : st) : st := mkst (now s) (boot s) (cycles0 s) (lat s) (lati s) (fired s) (seqc s) (t_wifi s) (t_timer1 s) (t_iter s) (t_wd s) (t_recon s) (t_stop s) (t_value s) (t_gpio2 s) (t_srv s) (wstatus s) (wlast s) (link s) (liveres s) (deadres s) v (started s) (registered s) (srpc s) (espbuf s) (recvbuf s) (lastresp s) (lastsent s) (nextwd s) (actto s) (resolving s) (gstate s) (conn s) (wbuf s) (stalled s) (outs s) (halted s) (stuck s) (regpay s) (clrstop s) (clrconn s) (evi s) (srvdelay s) (srvq s).
+Definition set_started (v : bool) (s : st) : st := mkst (now s) (boot s) (cycles0 s) (lat s) (lati s) (fired s) (seqc s) (t_wifi s) (t_timer1 s) (t_iter s) (t_wd s) (t_recon s) (t_stop s) (t_value s) (t_gpio2 s) (t_srv s) (wstatus s) (wlast s) (link s) (liveres s) (deadres s) (script s) v (registered s) (srpc s) (espbuf s) (recvbuf s) (lastresp s) (lastsent s) (nextwd s) (actto s) (resolving s) (gstate s) (conn s) (wbuf s) (stalled s) (outs s) (halted s) (stuck s) (regpay s) (clrstop s) (clrconn s) (evi s) (srvdelay s) (srvq s).
+Definition set_registered (v : Z) (s : st) : st := mkst (now s) (boot s) (cycles0 s) (lat s) (lati s) (fired s) (seqc s) (t_wifi s) (t_timer1 s) (t_iter s) (t_wd s) (t_recon s) (t_stop s) (t_value s) (t_gpio2 s) (t_srv s) (wstatus s) (wlast s) (link s) (liveres s) (deadres s) (script s) (started s) v (srpc s) (espbuf s) (recvbuf s) (lastresp s) (lastsent s) (nextwd s) (actto s) (resolving s) (gstate s) (conn s) (wbuf s) (stalled s) (outs s) (halted s) (stuck s) (regpay s) (clrstop s) (clrconn s) (evi s) (srvdelay s) (srvq s).
+Definition set_srpc (v : option rpc) (s : st) : st := mkst (now s) (boot s) (cycles0 s) (lat s) (lati s) (fired s) (seqc s) (t_wifi s) (t_timer1 s) (t_iter s) (t_wd s) (t_recon s) (t_stop s) (t_value s) (t_gpio2 s) (t_srv s) (wstatus s) (wlast s) (link s) (liveres s) (deadres s) (script s) (started s) (registered s) v (espbuf s) (recvbuf s) (lastresp s) (lastsent s) (nextwd s) (actto s) (resolving s) (gstate s) (conn s) (wbuf s) (stalled s) (outs s) (halted s) (stuck s) (regpay s) (clrstop s) (clrconn s) (evi s) (srvdelay s) (srvq s).
+Definition set_espbuf (v : list Z) (s : st) : st := mkst (now s) (boot s) (cycles0 s) (lat s) (lati s) (fired s) (seqc s) (t_wifi s) (t_timer1 s) (t_iter s) (t_wd s) (t_recon s) (t_stop s) (t_value s) (t_gpio2 s) (t_srv s) (wstatus s) (wlast s) (link s) (liveres s) (deadres s) (script s) (started s) (registered s) (srpc s) v (recvbuf s) (lastresp s) (lastsent s) (nextwd s) (actto s) (resolving s) (gstate s) (conn s) (wbuf s) (stalled s) (outs s) (halted s) (stuck s) (regpay s) (clrstop s) (clrconn s) (evi s) (srvdelay s) (srvq s).
+Definition set_recvbuf (v : list Z) (s : st) : st := mkst (now s) (boot s) (cycles0 s) (lat s) (lati s) (fired s) (seqc s) (t_wifi s) (t_timer1 s) (t_iter s) (t_wd s) (t_recon s) (t_stop s) (t_value s) (t_gpio2 s) (t_srv s) (wstatus s) (wlast s) (link s) (liveres s) (deadres s) (script s) (started s) (registered s) (srpc s) (espbuf s) v (lastresp s) (lastsent s) (nextwd s) (actto s) (resolving s) (gstate s) (conn s) (wbuf s) (stalled s) (outs s) (halted s) (stuck s) (regpay s) (clrstop s) (clrconn s) (evi s) (srvdelay s) (srvq s).
+Definition set_lastresp (v : Z) (s : st) : st := mkst (now s) (boot s) (cycles0 s) (lat s) (lati s) (fired s) (seqc s) (t_wifi s) (t_timer1 s) (t_iter s) (t_wd s) (t_recon s) (t_stop s) (t_value s) (t_gpio2 s) (t_srv s) (wstatus s) (wlast s) (link s) (liveres s) (deadres s) (script s) (started s) (registered s) (srpc s) (espbuf s) (recvbuf s) v (lastsent s) (nextwd s) (actto s) (resolving s) (gstate s) (conn s) (wbuf s) (stalled s) (outs s) (halted s) (stuck s) (regpay s) (clrstop s) (clrconn s) (evi s) (srvdelay s) (srvq s).
+Definition set_lastsent (v : Z) (s : st) : st := mkst (now s) (boot s) (cycles0 s) (lat s) (lati s) (fired s) (seqc s) (t_wifi s) (t_timer1 s) (t_iter s) (t_wd s) (t_recon s) (t_stop s) (t_value s) (t_gpio2 s) (t_srv s) (wstatus s) (wlast s) (link s) (liveres s) (deadres s) (script s) (started s) (registered s) (srpc s) (espbuf s) (recvbuf s) (lastresp s) v (nextwd s) (actto s) (resolving s) (gstate s) (conn s) (wbuf s) (stalled s) (outs s) (halted s) (stuck s) (regpay s) (clrstop s) (clrconn s) (evi s) (srvdelay s) (srvq s).
+Definition set_nextwd (v : Z) (s : st) : st := mkst (now s) (boot s) (cycles0 s) (lat s) (lati s) (fired s) (seqc s) (t_wifi s) (t_timer1 s) (t_iter s) (t_wd s) (t_recon s) (t_stop s) (t_value s) (t_gpio2 s) (t_srv s) (wstatus s) (wlast s) (link s) (liveres s) (deadres s) (script s) (started s) (registered s) (srpc s) (espbuf s) (recvbuf s) (lastresp s) (lastsent s) v (actto s) (resolving s) (gstate s) (conn s) (wbuf s) (stalled s) (outs s) (halted s) (stuck s) (regpay s) (clrstop s) (clrconn s) (evi s) (srvdelay s) (srvq s).
+Definition set_actto (v : Z) (s : st) : st := mkst (now s) (boot s) (cycles0 s) (lat s) (lati s) (fired s) (seqc s) (t_wifi s) (t_timer1 s) (t_iter s) (t_wd s) (t_recon s) (t_stop s) (t_value s) (t_gpio2 s) (t_srv s) (wstatus s) (wlast s) (link s) (liveres s) (deadres s) (script s) (started s) (registered s) (srpc s) (espbuf s) (recvbuf s) (lastresp s) (lastsent s) (nextwd s) v (resolving s) (gstate s) (conn s) (wbuf s) (stalled s) (outs s) (halted s) (stuck s) (regpay s) (clrstop s) (clrconn s) (evi s) (srvdelay s) (srvq s).
+Definition set_resolving (v : bool) (s : st) : st := mkst (now s) (boot s) (cycles0 s) (lat s) (lati s) (fired s) (seqc s) (t_wifi s) (t_timer1 s) (t_iter s) (t_wd s) (t_recon s) (t_stop s) (t_value s) (t_gpio2 s) (t_srv s) (wstatus s) (wlast s) (link s) (liveres s) (deadres s) (script s) (started s) (registered s) (srpc s) (espbuf s) (recvbuf s) (lastresp s) (lastsent s) (nextwd s) (actto s) v (gstate s) (conn s) (wbuf s) (stalled s) (outs s) (halted s) (stuck s) (regpay s) (clrstop s) (clrconn s) (evi s) (srvdelay s) (srvq s).
+Definition set_gstate (v : Z) (s : st) : st := mkst (now s) (boot s) (cycles0 s) (lat s) (lati s) (fired s) (seqc s) (t_wifi s) (t_timer1 s) (t_iter s) (t_wd s) (t_recon s) (t_stop s) (t_value s) (t_gpio2 s) (t_srv s) (wstatus s) (wlast s) (link s) (liveres s) (deadres s) (script s) (started s) (registered s) (srpc s) (espbuf s) (recvbuf s) (lastresp s) (lastsent s) (nextwd s) (actto s) (resolving s) v (conn s) (wbuf s) (stalled s) (outs s) (halted s) (stuck s) (regpay s) (clrstop s) (clrconn s) (evi s) (srvdelay s) (srvq s).
+Definition set_conn (v : Z) (s : st) : st := mkst (now s) (boot s) (cycles0 s) (lat s) (lati s) (fired s) (seqc s) (t_wifi s) (t_timer1 s) (t_iter s) (t_wd s) (t_recon s) (t_stop s) (t_value s) (t_gpio2 s) (t_srv s) (wstatus s) (wlast s) (link s) (liveres s) (deadres s) (script s) (started s) (registered s) (srpc s) (espbuf s) (recvbuf s) (lastresp s) (lastsent s) (nextwd s) (actto s) (resolving s) (gstate s) v (wbuf s) (stalled s) (outs s) (halted s) (stuck s) (regpay s) (clrstop s) (clrconn s) (evi s) (srvdelay s) (srvq s).
+Definition set_wbuf (v : list Z) (s : st) : st := mkst (now s) (boot s) (cycles0 s) (lat s) (lati s) (fired s) (seqc s) (t_wifi s) (t_timer1 s) (t_iter s) (t_wd s) (t_recon s) (t_stop s) (t_value s) (t_gpio2 s) (t_srv s) (wstatus s) (wlast s) (link s) (liveres s) (deadres s) (script s) (started s) (registered s) (srpc s) (espbuf s) (recvbuf s) (lastresp s) (lastsent s) (nextwd s) (actto s) (resolving s) (gstate s) (conn s) v (stalled s) (outs s) (halted s) (stuck s) (regpay s) (clrstop s) (clrconn s) (evi s) (srvdelay s) (srvq s).
+Definition set_stalled (v : bool) (s : st) : st := mkst (now s) (boot s) (cycles0 s) (lat s) (lati s) (fired s) (seqc s) (t_wifi s) (t_timer1 s) (t_iter s) (t_wd s) (t_recon s) (t_stop s) (t_value s) (t_gpio2 s) (t_srv s) (wstatus s) (wlast s) (link s) (liveres s) (deadres s) (script s) (started s) (registered s) (srpc s) (espbuf s) (recvbuf s) (lastresp s) (lastsent s) (nextwd s) (actto s) (resolving s) (gstate s) (conn s) (wbuf s) v (outs s) (halted s) (stuck s) (regpay s) (clrstop s) (clrconn s) (evi s) (srvdelay s) (srvq s).
+Definition set_outs (v : list wire) (s : st) : st := mkst (now s) (boot s) (cycles0 s) (lat s) (lati s) (fired s) (seqc s) (t_wifi s) (t_timer1 s) (t_iter s) (t_wd s) (t_recon s) (t_stop s) (t_value s) (t_gpio2 s) (t_srv s) (wstatus s) (wlast s) (link s) (liveres s) (deadres s) (script s) (started s) (registered s) (srpc s) (espbuf s) (recvbuf s) (lastresp s) (lastsent s) (nextwd s) (actto s) (resolving s) (gstate s) (conn s) (wbuf s) (stalled s) v (halted s) (stuck s) (regpay s) (clrstop s) (clrconn s) (evi s) (srvdelay s) (srvq s).
+Definition set_halted (v : bool) (s : st) : st := mkst (now s) (boot s) (cycles0 s) (lat s) (lati s) (fired s) (seqc s) (t_wifi s) (t_timer1 s) (t_iter s) (t_wd s) (t_recon s) (t_stop s) (t_value s) (t_gpio2 s) (t_srv s) (wstatus s) (wlast s) (link s) (liveres s) (deadres s) (script s) (started s) (registered s) (srpc s) (espbuf s) (recvbuf s) (lastresp s) (lastsent s) (nextwd s) (actto s) (resolving s) (gstate s) (conn s) (wbuf s) (stalled s) (outs s) v (stuck s) (regpay s) (clrstop s) (clrconn s) (evi s) (srvdelay s) (srvq s).
+Definition set_stuck (v : bool) (s : st) : st := mkst (now s) (boot s) (cycles0 s) (lat s) (lati s) (fired s) (seqc s) (t_wifi s) (t_timer1 s) (t_iter s) (t_wd s) (t_recon s) (t_stop s) (t_value s) (t_gpio2 s) (t_srv s) (wstatus s) (wlast s) (link s) (liveres s) (deadres s) (script s) (started s) (registered s) (srpc s) (espbuf s) (recvbuf s) (lastresp s) (lastsent s) (nextwd s) (actto s) (resolving s) (gstate s) (conn s) (wbuf s) (stalled s) (outs s) (halted s) v (regpay s) (clrstop s) (clrconn s) (evi s) (srvdelay s) (srvq s).
+Definition set_regpay (v : list Z) (s : st) : st := mkst (now s) (boot s) (cycles0 s) (lat s) (lati s) (fired s) (seqc s) (t_wifi s) (t_timer1 s) (t_iter s) (t_wd s) (t_recon s) (t_stop s) (t_value s) (t_gpio2 s) (t_srv s) (wstatus s) (wlast s) (link s) (liveres s) (deadres s) (script s) (started s) (registered s) (srpc s) (espbuf s) (recvbuf s) (lastresp s) (lastsent s) (nextwd s) (actto s) (resolving s) (gstate s) (conn s) (wbuf s) (stalled s) (outs s) (halted s) (stuck s) v (clrstop s) (clrconn s) (evi s) (srvdelay s) (srvq s).
+Definition set_clrstop (v : bool) (s : st) : st := mkst (now s) (boot s) (cycles0 s) (lat s) (lati s) (fired s) (seqc s) (t_wifi s) (t_timer1 s) (t_iter s) (t_wd s) (t_recon s) (t_stop s) (t_value s) (t_gpio2 s) (t_srv s) (wstatus s) (wlast s) (link s) (liveres s) (deadres s) (script s) (started s) (registered s) (srpc s) (espbuf s) (recvbuf s) (lastresp s) (lastsent s) (nextwd s) (actto s) (resolving s) (gstate s) (conn s) (wbuf s) (stalled s) (outs s) (halted s) (stuck s) (regpay s) v (clrconn s) (evi s) (srvdelay s) (srvq s).
+Definition set_clrconn (v : bool) (s : st) : st := mkst (now s) (boot s) (cycles0 s) (lat s) (lati s) (fired s) (seqc s) (t_wifi s) (t_timer1 s) (t_iter s) (t_wd s) (t_recon s) (t_stop s) (t_value s) (t_gpio2 s) (t_srv s) (wstatus s) (wlast s) (link s) (liveres s) (deadres s) (script s) (started s) (registered s) (srpc s) (espbuf s) (recvbuf s) (lastresp s) (lastsent s) (nextwd s) (actto s) (resolving s) (gstate s) (conn s) (wbuf s) (stalled s) (outs s) (halted s) (stuck s) (regpay s) (clrstop s) v (evi s) (srvdelay s) (srvq s).
+Definition set_evi (v : Z) (s : st) : st := mkst (now s) (boot s) (cycles0 s) (lat s) (lati s) (fired s) (seqc s) (t_wifi s) (t_timer1 s) (t_iter s) (t_wd s) (t_recon s) (t_stop s) (t_value s) (t_gpio2 s) (t_srv s) (wstatus s) (wlast s) (link s) (liveres s) (deadres s) (script s) (started s) (registered s) (srpc s) (espbuf s) (recvbuf s) (lastresp s) (lastsent s) (nextwd s) (actto s) (resolving s) (gstate s) (conn s) (wbuf s) (stalled s) (outs s) (halted s) (stuck s) (regpay s) (clrstop s) (clrconn s) v (srvdelay s) (srvq s).
+Definition set_srvdelay (v : Z) (s : st) : st := mkst (now s) (boot s) (cycles0 s) (lat s) (lati s) (fired s) (seqc s) (t_wifi s) (t_timer1 s) (t_iter s) (t_wd s) (t_recon s) (t_stop s) (t_value s) (t_gpio2 s) (t_srv s) (wstatus s) (wlast s) (link s) (liveres s) (deadres s) (script s) (started s) (registered s) (srpc s) (espbuf s) (recvbuf s) (lastresp s) (lastsent s) (nextwd s) (actto s) (resolving s) (gstate s) (conn s) (wbuf s) (stalled s) (outs s) (halted s) (stuck s) (regpay s) (clrstop s) (clrconn s) (evi s) v (srvq s).
+Definition set_srvq (v : list Z) (s : st) : st := mkst (now s) (boot s) (cycles0 s) (lat s) (lati s) (fired s) (seqc s) (t_wifi s) (t_timer1 s) (t_iter s) (t_wd s) (t_recon s) (t_stop s) (t_value s) (t_gpio2 s) (t_srv s) (wstatus s) (wlast s) (link s) (liveres s) (deadres s) (script s) (started s) (registered s) (srpc s) (espbuf s) (recvbuf s) (lastresp s) (lastsent s) (nextwd s) (actto s) (resolving s) (gstate s) (conn s) (wbuf s) (stalled s) (outs s) (halted s) (stuck s) (regpay s) (clrstop s) (clrconn s) (evi s) (srvdelay s) v.
 
 Definition get_tm (i : tid) (s : st) : timer :=
   match i with T_wifi => t_wifi s | T_timer1 => t_timer1 s | T_iter => t_iter s | T_wd => t_wd s
-             | T_recon => t_recon s | T_stop => t_stop s | T_value => t_value s | T_gpio2 => t_gpio2 s end.
+             | T_recon => t_recon s | T_stop => t_stop s | T_value => t_value s | T_gpio2 => t_gpio2 s | T_srv => t_srv s end.
 Definition set_tm (i : tid) (v : timer) (s : st) : st :=
   match i with T_wifi => set_t_wifi v s | T_timer1 => set_t_timer1 v s | T_iter => set_t_iter v s | T_wd => set_t_wd v s
-             | T_recon => set_t_recon v s | T_stop => set_t_stop v s | T_value => set_t_value v s | T_gpio2 => set_t_gpio2 v s end.
+             | T_recon => set_t_recon v s | T_stop => set_t_stop v s | T_value => set_t_value v s | T_gpio2 => set_t_gpio2 v s
+             | T_srv => set_t_srv v s end.
 
 Definition emit (k : Z) (a : list Z) (s : st) : st := set_outs (mk k a [] :: outs s) s.
 (* uptime_sec() of uptime.c: usermain_uptime.cycles is incremented at the first call after each wrap of the 32-bit
@@ -153,6 +160,16 @@ Definition arm (i : tid) (ms : Z) (rep : bool) (s : st) : st :=
   let q := seqc s + 1 in
   set_tm i (mktimer true (now s + ms * 1000) q (if rep then ms * 1000 else 0)) (set_seqc q s).
 Definition disarm (i : tid) (s : st) : st := set_tm i (mktimer false 0 (tseq (get_tm i s)) 0) s.
+
+(* ---------- server responder of the harness (SERVER <delay>): a ping that reaches the wire of the live connection is answered
+   <delay> us later by a ping result delivered from an SDK timer (ninth timer T_srv, FIFO of due times, at most 16 pending) ---------- *)
+Definition srv_on_frame (call : Z) (s : st) : st :=
+  if (call =? CALL_PING) && (0 <=? srvdelay s) && (link s =? L_LIVE) && (len (srvq s) <? 16) then
+    let d := now s + srvdelay s in
+    let s1 := set_srvq (srvq s ++ [d]) s in
+    if armed (t_srv s1) then s1
+    else let q := seqc s1 + 1 in set_t_srv (mktimer true d q 0) (set_seqc q s1)
+  else s.
 
 (* ---------- wire decoder of the harness (same algorithm as harness/drv/c04.c) ---------- *)
 Definition HDRSZ : Z := SDP_SIZE - MAX_DATA_SIZE.
@@ -169,8 +186,9 @@ Fixpoint decode (fuel : nat) (s : st) : st :=
       if MAX_DATA_SIZE <? ds then set_stalled true s
       else if len w <? HDRSZ + ds + TAG_SIZE then s
       else if negb (list_eqb (take TAG_SIZE (drop (HDRSZ + ds) w)) TAG) then set_stalled true s
-      else decode k (set_wbuf (drop (HDRSZ + ds + TAG_SIZE) w)
-                     (emit O_WIRE [now s; wire_conn s; le32 w OFF_CALL_ID; le32 w OFF_RR_ID] s))
+      else decode k (srv_on_frame (le32 w OFF_CALL_ID)
+                     (set_wbuf (drop (HDRSZ + ds + TAG_SIZE) w)
+                       (emit O_WIRE [now s; wire_conn s; le32 w OFF_CALL_ID; le32 w OFF_RR_ID] s)))
   end.
 Definition wire_accept (b : list Z) (s : st) : st :=
   let s1 := set_wbuf (wbuf s ++ b) s in decode (S (Z.to_nat (len (wbuf s1) / (HDRSZ + TAG_SIZE)))) s1.
@@ -381,6 +399,20 @@ Definition watchdog_cb (s : st) : st :=
     else let t := u32 (uptime s - lastresp s) in
          if (WATCHDOG_SOFT_TIMEOUT_S <=? t) && (u32 (actto s) <? t) && (nextwd s <? uptime s) then devconn_reconnect s else s
   else s.
+(* the responder's timer: deliver one ping result (if the connection is still live), re-arm for the next pending one *)
+Definition ping_result_frame : list Z := encode (SRV_PING_RESULT, 1, zeros SZ_PING_RESULT).
+Definition srv_cb (s : st) : st :=
+  match srvq s with
+  | [] => s
+  | _ :: rest =>
+    let s1 := set_srvq rest s in
+    let s2 := match rest with
+              | [] => s1
+              | d :: _ => let q := seqc s1 + 1 in
+                          set_t_srv (mktimer true (if d <? now s1 then now s1 else d) q 0) (set_seqc q s1)
+              end in
+    if link s2 =? L_LIVE then recv_cb ping_result_frame (emit O_SRVRX [now s2; conn s2] s2) else s2
+  end.
 Definition callback (i : tid) (s : st) : st :=
   match i with
   | T_wifi => wifi_check_status s
@@ -391,6 +423,7 @@ Definition callback (i : tid) (s : st) : st :=
   | T_stop => devconn_stop s
   | T_value => s                    (* send_channel_values_cb: no shutters, inert board *)
   | T_gpio2 => s                    (* supla_esp_gpio_enable_sensors: no effect on the connection *)
+  | T_srv => srv_cb s
   end.
 
 (* ---------- advancing time (harness/doubles/doubles.c v_advance) ---------- *)
@@ -442,7 +475,7 @@ Definition local_call (api : Z) (s : st) : st :=
 
 (* ---------- events ---------- *)
 Inductive ev := Adv (dt : Z) | Wifi (status : Z) | ConnCb | DiscCb | Recv (b : list Z) | SentMode (r : Z)
-              | SentRes (l : list Z) | Local (api : Z) | Bad.
+              | SentRes (l : list Z) | Local (api : Z) | Server (delay : Z) | Bad.
 
 (* the SDK delivers connect_cb only for a pending request, disconnect_cb only for a live/closing connection,
    received data only on a live connection (Env_disconnect_before_connect of the design) *)
@@ -469,6 +502,7 @@ Definition dev_step (s : st) (e : ev) : st :=
   | SentMode r => set_liveres r s
   | SentRes l => set_script l s
   | Local api => local_call api s
+  | Server d => set_srvdelay d s
   | Bad => s
   end.
 Definition step (s0 : st) (e : ev) : st :=
@@ -477,15 +511,15 @@ Definition step (s0 : st) (e : ev) : st :=
 
 (* ---------- boot: user_init order gpio_init, wifi_init, devconn_init, devconn_start ---------- *)
 Definition init0 (boot_ cyc dead : Z) (pay lat_ : list Z) (cs cc : bool) : st :=
-  mkst 0 boot_ cyc lat_ 0 0 0 timer0 timer0 timer0 timer0 timer0 timer0 timer0 timer0
+  mkst 0 boot_ cyc lat_ 0 0 0 timer0 timer0 timer0 timer0 timer0 timer0 timer0 timer0 timer0
        0 (STATION_GOT_IP_ + 1)
        L_IDLE 0 dead []
        false 0 None [] [] 0 0 0 0 false 0
-       0 [] false [] false false pay cs cc 0.
+       0 [] false [] false false pay cs cc 0 (-1) [].
 Definition boot_device (boot_ cyc dead : Z) (pay lat_ : list Z) (cs cc : bool) : st :=
   let s0 := init0 boot_ cyc dead pay lat_ cs cc in
   let s1 := set_wstatus STATION_CONNECTING_ (emit O_WIFISTART [now s0] s0) in         (* supla_esp_wifi_init *)
-  let s2 := arm T_wd WATCHDOG_MS true s1 in                                            (* supla_esp_devconn_init *)
+  let s2 := arm T_wd WATCHDOG_MS true (set_lastresp (uptime s1) s1) in                 (* supla_esp_devconn_init *)
   devconn_start s2.
 
 Fixpoint run_from (s : st) (evs : list ev) : st :=
@@ -506,7 +540,7 @@ Definition ev_of_wire (w : wire) : ev :=
   match w with (k, a, b) =>
     if k =? 1 then Adv (nthz a 0) else if k =? 2 then Wifi (nthz a 0) else if k =? 3 then ConnCb
     else if k =? 4 then DiscCb else if k =? 5 then Recv b else if k =? 6 then SentMode (nthz a 0)
-    else if k =? 7 then SentRes a else if k =? 8 then Local (nthz a 0) else Bad end.
+    else if k =? 7 then SentRes a else if k =? 8 then Local (nthz a 0) else if k =? 9 then Server (nthz a 0) else Bad end.
 (* first event: CFG boot dead nchannels cycles lateness... *)
 Definition run_wire (cs cc : bool) (ws : list wire) : list wire :=
   match ws with
@@ -514,7 +548,9 @@ Definition run_wire (cs cc : bool) (ws : list wire) : list wire :=
       if k =? 0 then
         let s := boot_device (nthz a 0) (nthz a 3) (nthz a 1) (zeros (REG_BASE_SIZE + nthz a 2 * REG_CHANNEL_SIZE)) (drop 4 a) cs cc in
         rev (outs (final_state (run_from s (map ev_of_wire rest))))
-      else []
+      else (* no CFG line (a shrunk replay): defaults boot 0, dead result ESPCONN_ARG, no channels; the line counts as event 1 *)
+        let s := boot_device 0 0 ESP_ARG (zeros REG_BASE_SIZE) [] cs cc in
+        rev (outs (final_state (run_from (set_evi (-1) s) (map ev_of_wire ws))))
   | [] => []
   end.
 Definition main_wire (ws : list wire) : list wire := run_wire TREE_CLRSTOP TREE_CLRCONN ws.
